@@ -10,7 +10,8 @@
 (*   "unknown" unrecognised option, extra positional   error at end   -> 3 *)
 (*   "dir"     the target (v: "ok" | "missing"); a second one is "unknown" *)
 (*   "output"  v: "ok" | "noparent" | "isdir" | "devfull"   (last wins)    *)
-(*   "sarif" | "sonar" | "hotspots" | "dojo"   v: "ok" | "missing" | "dup" | "two" *)
+(*   "sarif" | "sonar" | "hotspots" | "dojo" | "contrast"                    *)
+(*             v: "ok" | "missing" | "dup" | "two"                          *)
 (*   "flag"    harmless option                                            *)
 (*   "unser"   harmless option whose value is not valid UTF-8 (argv bytes  *)
 (*             that the OS hands over as lone surrogates): the run works,  *)
@@ -25,7 +26,7 @@
 EXTENDS Integers, Sequences, FiniteSets
 
 St0 == [dir |-> "none", incl |-> FALSE, excl |-> FALSE, unknown |-> FALSE, unser |-> FALSE,
-        output |-> "none", sarif |-> "none", sonar |-> "none", hotspots |-> "none", dojo |-> "none"]
+        output |-> "none", sarif |-> "none", sonar |-> "none", hotspots |-> "none", dojo |-> "none", contrast |-> "none"]
 
 RECURSIVE Parse(_, _)
 Parse(toks, st) ==
@@ -45,6 +46,7 @@ Parse(toks, st) ==
          [] t.k = "sonar"   -> Parse(r, [st EXCEPT !.sonar = t.v])
          [] t.k = "hotspots" -> Parse(r, [st EXCEPT !.hotspots = t.v])
          [] t.k = "dojo"    -> Parse(r, [st EXCEPT !.dojo = t.v])
+         [] t.k = "contrast" -> Parse(r, [st EXCEPT !.contrast = t.v])
          [] OTHER           -> Parse(r, st)
 
 BadFile(v) == v \in {"missing", "dup"}
@@ -54,7 +56,7 @@ ExpectedExit(toks, env) ==
   IF p.exit # 99 THEN p.exit
   ELSE LET s == p.st IN
        IF s.dir = "missing" THEN 1
-       ELSE IF BadFile(s.sarif) \/ BadFile(s.sonar) \/ BadFile(s.hotspots) \/ BadFile(s.dojo) THEN 1
+       ELSE IF BadFile(s.sarif) \/ BadFile(s.sonar) \/ BadFile(s.hotspots) \/ BadFile(s.dojo) \/ BadFile(s.contrast) THEN 1
        ELSE IF env = "half" THEN 3
        ELSE IF s.output \in {"noparent", "isdir", "devfull"} THEN 2      \* "ok", "devnull", "fifo": the report is delivered
        ELSE IF s.output # "none" /\ s.unser THEN 2                      \* the report cannot be serialised
